@@ -76,7 +76,8 @@ def build(params):
 def enabled_for(params):
     kinds = params.get('kinds', ALL_KINDS)
     base = P.make_enabled(kinds, per_endpoint=('trigA' in params['budget']),
-                          faults=params.get('faults', ('drop', 'dup')), timeouts=params.get('timeouts', False))
+                          faults=params.get('faults', ('drop', 'dup')), timeouts=params.get('timeouts', False),
+                          timers_any_state=params.get('timers_any_state', False))
     if params['config'] != 'refuse':
         return base
 
@@ -113,6 +114,10 @@ def scenario_list(quick):
     # (and a later, unrelated creation must not act on it either)
     out.append(dict(config='match', kinds=('soft',), budget=dict(trigA=1, trigB=2, fault=0)))
     out.append(dict(config='match', kinds=('soft', 'acquire'), budget=dict(trigA=2, trigB=1, fault=0) if quick else dict(trigA=2, trigB=2, fault=0)))
+    # timers that come due in whatever state the IKE_SA is in (e.g. the rekey timer of an IKE_SA that has just been replaced
+    # by the peer and still waits for its DELETE, which is lost once)
+    out.append(dict(config='match', kinds=('rekey_ike', 'dpd'), timers_any_state=True, faults=('drop',),
+                    budget=dict(trigA=1, trigB=2, fault=1) if quick else dict(trigA=2, trigB=2, fault=1)))
     # two IKE_SAs per endpoint for one connection (simultaneous initiation), INVALID_KE retries on the way
     out.append(dict(config='ke-mismatch', start='double', kinds=('acquire', 'soft', 'rekey_ike'),
                     budget=dict(trig=2, fault=0) if quick else dict(trig=3, fault=0)))
@@ -124,7 +129,8 @@ def scenario_list(quick):
 def label(params):
     return '%s%s%s%s/%s' % (params['config'], '+double' if params.get('start') == 'double' else '',
                             '+timeouts' if params.get('timeouts') else '',
-                            (':' + '+'.join(params['kinds'])) if params.get('kinds') else '', ','.join('%s=%s' % kv for kv in sorted(params['budget'].items())))
+                            ((':' + '+'.join(params['kinds'])) if params.get('kinds') else '')
+                            + ('+timers-any-state' if params.get('timers_any_state') else ''), ','.join('%s=%s' % kv for kv in sorted(params['budget'].items())))
 
 
 def explore(params, monitors, state_monitors=(), quick=True, max_states=None, jobs=0):
